@@ -30,6 +30,9 @@ import Driver.Suites.Geometry
 import Driver.Suites.CreateVerify
 import Driver.Suites.MSE
 import Driver.Suites.Policy
+import Driver.Suites.InfoDL
+import Driver.Suites.Magnet
+import Driver.Suites.Adopt
 /-! Table of suites known to the driver.  One line per suite (merge=union friendly). -/
 namespace Driver
 def registry : List Suite := [
@@ -72,5 +75,8 @@ def registry : List Suite := [
   Suites.CreateVerify.suite,
   Suites.MSE.suite,
   Suites.Policy.suite,
+  Suites.InfoDL.suite,
+  Suites.Magnet.suite,
+  Suites.Adopt.suite,
 ]
 end Driver
